@@ -447,6 +447,7 @@ int main(int argc, char** argv)
         else
         {
             ok = overflow_rows(cx) && offset_rows<float>(cx, "float") && offset_rows<double>(cx, "double") && offset_rows<int16_t>(cx, "int16_t") && offset_rows<char>(cx, "char");
+            ok = offset_rows<std::complex<float>>(cx, "complex<float>") && offset_rows<std::complex<double>>(cx, "complex<double>") && offset_rows<long double>(cx, "long double") && ok;
             ok = is_aligned_all(cx, xsimd::all_x86_architectures {}) && ok;
             ok = default_alignment_row(cx) && ok;
         }
@@ -461,6 +462,10 @@ int main(int argc, char** argv)
         offset_rows<double>(cx, "double");
         offset_rows<int16_t>(cx, "int16_t");
         offset_rows<char>(cx, "char");
+        // element types whose alignment is smaller than their size (sizes are powers of two: the helper is documented for SIMD element types)
+        offset_rows<std::complex<float>>(cx, "complex<float>");
+        offset_rows<std::complex<double>>(cx, "complex<double>");
+        offset_rows<long double>(cx, "long double");
         is_aligned_all(cx, xsimd::all_x86_architectures {});
         default_alignment_row(cx);
         eq_row<char, 16, double, 16>(cx);
